@@ -68,20 +68,22 @@ ParOK(G) == \A t \in 1..G.n : G.par[t] => (G.kind[t] \in {"exp", "cmd"} /\ MustR
 RECURSIVE CachedLines(_, _, _)
 CachedLines(c, i, mm) == IF i > Len(c) THEN mm ELSE CachedLines(c, i + 1, RO!OnCachedLine(Cfg, mm, c[i]))
 
-Init ==
-    /\ gr \in {G \in ExecGraphs : ParOK(G)}
-    /\ pl = PlanOf(gr)
-    /\ jobs \in 1..MaxJobs /\ stop \in StopModes
+InitWith(G, j, st) ==
+    /\ gr = G
+    /\ pl = PlanOf(G)
+    /\ jobs = j /\ stop = st
     /\ pc = "start" /\ cur = 0 /\ curSlot = -1
-    /\ ost = [o \in Ops |-> "QUEUED"]
-    /\ waiting = [o \in Ops |-> Cardinality(Exe(o))]
+    /\ ost = [o \in 1..Len(PlanOf(G).ops) |-> "QUEUED"]
+    /\ waiting = [o \in 1..Len(PlanOf(G).ops) |-> Cardinality(PlanOf(G).ops[o].exe)]
     /\ readyP = <<>> /\ readyS = <<>> /\ inflP = {} /\ inflS = <<>>
-    /\ slots = [i \in 1..jobs |-> jobs - i]        \* list(reversed(range(slots))): top of stack = slot 0
+    /\ slots = [i \in 1..j |-> j - i]             \* list(reversed(range(slots))): top of stack = slot 0
     /\ runPar = FALSE /\ completed = <<>> /\ ndeq = 0
-    /\ proc = [o \in Ops |-> "none"] /\ code = [o \in Ops |-> 0]
+    /\ proc = [o \in 1..Len(PlanOf(G).ops) |-> "none"] /\ code = [o \in 1..Len(PlanOf(G).ops) |-> 0]
     /\ sigPending = FALSE /\ pipe = 0 /\ rcs = <<>> /\ active = {}
-    /\ slotOf = [o \in Ops |-> -1] /\ recorded = {} /\ launchFailed = {} /\ abortPc = ""
+    /\ slotOf = [o \in 1..Len(PlanOf(G).ops) |-> -1] /\ recorded = {} /\ launchFailed = {} /\ abortPc = ""
     /\ m = RO!MonInit
+
+Init == \E G \in {H \in ExecGraphs : ParOK(H)} : \E j \in 1..MaxJobs : \E st \in StopModes : InitWith(G, j, st)
 
 Kern == <<proc, code, sigPending, pipe, rcs, active>>
 Conf == <<gr, pl, jobs, stop, abortPc>>
